@@ -158,7 +158,16 @@ func Draw(t *rapid.T, cfg GenConfig) *Model {
 		g.m.Defs = append(g.m.Defs, Def{Name: name, Type: enumDefs[name]})
 	}
 	if cfg.Intersections && cfg.Format != CUE && !cfg.Intersection && len(g.structs) >= 3 {
-		g.m.Defs = append(g.m.Defs, Def{Name: "Combined", Type: T{Kind: KIntersection, Refs: []string{g.structs[len(g.structs)-2], g.structs[len(g.structs)-1]}}})
+		combined := T{Kind: KIntersection, Refs: []string{g.structs[len(g.structs)-2], g.structs[len(g.structs)-1]}}
+		if rapid.Bool().Draw(t, "inlinebranch") {
+			// an inline object branch holding what the language passes rewrite
+			combined.Refs = combined.Refs[:1]
+			combined.Fields = []Field{
+				{Name: "zzInlineEnum", Type: T{Kind: KEnum, EnumKind: "string", Members: []json.RawMessage{*Raw("a"), *Raw("b")}}},
+				{Name: "zzInlineOptional", Type: T{Kind: KString, Nullable: cfg.Format == JSONSchema}},
+			}
+		}
+		g.m.Defs = append(g.m.Defs, Def{Name: "Combined", Type: combined})
 		// the entry point refers to it
 		entry := &g.m.Defs[0].Type
 		entry.Fields = append(entry.Fields, Field{Name: "combined", Type: T{Kind: KRef, Ref: "Combined"}, Required: rapid.Bool().Draw(t, "combinedrequired")})
